@@ -56,6 +56,14 @@ def regenerate(rep, pid, drv_cpp, defines, headers, out_of_scope, sigs, scalar="
     rep.coverage["translated_defs"] = rep.coverage.get("translated_defs", 0) + sum(1 for m in meta if m["kind"] == "def")
     rep.coverage["translated_wrappers"] = rep.coverage.get("translated_wrappers", 0) + len(tr.signatures)
     if errors:
+        # the wrappers that did translate keep their signatures, so that the search for a failing input can still run
+        # them (against the committed snapshot of the model) although the model could not be regenerated
+        try:
+            sigs.clear()
+            sigs.update(tr.signatures)
+            sigs["__fields__"] = dict(tr.struct_fields)
+        except Exception:
+            pass
         return dict(kind="translator-unsupported", errors=errors,
                     note="the current source uses a construct outside the translator's subset; the model cannot be regenerated")
     changed = write_if_changed("lean/RkVerif/Gen/%s.lean" % pid, text)
